@@ -99,9 +99,9 @@ class Ctx:
         self.E.add(h == T(value))
         return BList(ds)
 
-    def loop(self, qualname, anchor, invariant, decreases=None, havoc=None, label=None, ghost_step=None):
+    def loop(self, qualname, anchor, invariant, decreases=None, havoc=None, label=None, ghost_step=None, callee_frame=None):
         """loop contract given by the harness (may mention the harness's ghost values)"""
-        self.I.loops.setdefault(qualname, []).insert(0, LoopSpec(anchor, invariant, decreases, havoc, label, ghost_step))
+        self.I.loops.setdefault(qualname, []).insert(0, LoopSpec(anchor, invariant, decreases, havoc, label, ghost_step, callee_frame))
 
     def fill(self, value, length):
         return core.BFill(value, length)
